@@ -11,6 +11,41 @@ import SnowModel.Groups
 namespace Snow.Store
 open Snow.Topology Snow.Groups
 
+/-- one entry of a list/tuple request, by its Python type: only `int` (and its subclass
+`bool`) passes `isinstance(x, int)`; numpy scalars (`np.int64`, `np.float64`, …) and
+Python floats do not. -/
+inductive Item where
+  | int (v : Int)
+  | bool (b : Bool)
+  | npInt (v : Int)      -- numpy integer scalar
+  | float                -- Python or numpy floating scalar
+  | str (s : String)
+  | other
+deriving Repr
+
+def Item.isInt : Item → Bool
+  | .int _ => true
+  | .bool _ => true
+  | _ => false
+
+def Item.isBool : Item → Bool
+  | .bool _ => true
+  | _ => false
+
+def Item.isStr : Item → Bool
+  | .str _ => true
+  | _ => false
+
+/-- value of an entry that passed `isinstance(x, int)` (`True` is 1) -/
+def Item.intVal : Item → Int
+  | .int v => v
+  | .bool b => if b then 1 else 0
+  | _ => 0
+
+def Item.strVal : Item → String
+  | .str s => s
+  | _ => ""
+
 /-- the `storeStates` argument, by the case distinction of `__init__` -/
 inductive Spec where
   | none                         -- `None`
@@ -18,6 +53,8 @@ inductive Spec where
   | str (s : String)
   | strs (ss : List String)      -- non-empty list/tuple, all `str`
   | mixed                        -- list/tuple, neither all `int` nor all `str`
+  | seq (items : List Item)      -- list/tuple given entry by entry (classified by `classify`)
+  | boolMask (bs : List Bool)    -- non-empty list/tuple of `bool` only: numpy uses it as a boolean mask
   | other                        -- anything else (no branch assigns the mask)
 deriving Repr
 
@@ -117,11 +154,27 @@ def interpretInts (N : Nat) (xs : List Int) : Except String (List Bool) :=
     .error "ValueError"
   else .ok (maskFromIdx N (xs.map Int.toNat))
 
+/-- the case distinction of `__init__` on a list/tuple: `all(isinstance(x, int))`
+first (also true for the empty sequence), then `all(isinstance(x, str))`, else
+`ValueError` -/
+def classify (items : List Item) : Spec :=
+  if items.all Item.isInt then
+    -- `mask[list(storeStates)] = True`: a list of Python bools only is a boolean-mask index
+    if !items.isEmpty && items.all Item.isBool then .boolMask (items.map fun it => it.intVal == 1)
+    else .ints (items.map Item.intVal)
+  else if items.all Item.isStr then .strs (items.map Item.strVal)
+  else .mixed
+
 /-- the storage mask chosen by `__init__` (`emptyStore` is the second component) -/
 def storageMask (arr : Arr) (nx ny nz : Nat) (spec : Spec) (choices : List (List Nat)) :
     Except String (List Bool × Bool) :=
   let exts := extVec arr nx ny nz
+  let spec := match spec with
+    | .seq items => classify items
+    | sp => sp
   match spec with
+  | .seq _ => .error "unreachable"
+  | .boolMask bs => if bs.length = exts.length then .ok (bs, false) else .error "IndexError"
   | .none => .ok (List.replicate exts.length false, true)
   | .ints xs => (interpretInts exts.length xs).map (·, false)
   | .str s => (interpretString arr nz exts s (choices.headD [])).map fun p => (p.1, false)
